@@ -431,7 +431,7 @@ for _f in c07.FACETS:
 
 
 def shards(tier):
-    per = 250 if tier == 'quick' else 12000
+    per = 700 if tier == 'quick' else 12000
     out = []
     for k in sorted(KINDS):
         for i in range(4 if k == 'c06' else 1):
